@@ -337,7 +337,17 @@ class SymInt:
         return "<sym>"
 
     def bit_length(self):
-        return _eng().concretize(self).bit_length()
+        """symbolic: an If-chain over the magnitude (no fork, no enumeration)"""
+        v = abs(self)
+        if isinstance(v, int):
+            return v.bit_length()
+        hi = v.hi.bit_length()
+        W = max(v.w, fit(0, hi))
+        t = resize(v.t, W)
+        res = z3.BitVecVal(0, W)
+        for k in range(1, hi + 1):
+            res = z3.If(t >= z3.BitVecVal(1 << (k - 1), W), z3.BitVecVal(k, W), res)
+        return SymInt.mk(res, v.lo.bit_length(), hi)
 
     def to_bytes(self, length=1, byteorder="big", *, signed=False):
         length = alloc_guard(length)
